@@ -1,11 +1,12 @@
 (* Props/Properties_C15.v — C15: workers are pinned to distinct PUs inside the process mask.
-   Only statements; each is closed by [exact] of a lemma from Proofs/AffinityProofs.v.
+   Only statements; each is closed by [exact] of a lemma from Proofs/AffinityProofs.v or
+   Proofs/AffinityStartupProofs.v.
    [sound_masks t use pm n ms] (Proofs): ms = [{p_0}; ...; {p_(n-1)}] with the p_i pairwise different,
    existing PUs, inside the process mask pm when it is in use.
    All theorems quantify over EVERY topology (list of sockets of cores of PU counts, regular or not),
    every process mask, every thread count, every max_cores; "accepted" = the model returns Ok. *)
-From Coq Require Import List Arith Bool.
-From Pika Require Import Model.Affinity Proofs.AffinityProofs.
+From Coq Require Import List Arith Bool Permutation.
+From Pika Require Import Model.Affinity Proofs.AffinityProofs Proofs.AffinityStartupProofs.
 Import ListNotations.
 
 (* compact: the decoder may sweep the cores a second time and then hands out a PU twice; this is
@@ -64,6 +65,121 @@ Theorem C15_pools_partition_workers : forall pools i,
 Proof. exact pools_partition_workers. Qed.
 Print Assumptions C15_pools_partition_workers.
 
+(* ---- decoder -> partitioner -> pools -> workers (Proofs/AffinityStartupProofs.v) ----
+   Hypothesis [m = Compact -> ...] is the one of C15_decode_compact_sound; scatter, balanced and
+   numa-balanced need none. *)
+
+(* fill_topology_vectors + pu_exposed: the partitioner's exposed list has exactly n entries, namely
+   the PUs the decoder put into the n masks *)
+Theorem C15_exposed_count : forall t m use pm n mc ad,
+  (m = Compact -> use = true \/ (n <= mc /\ wf_topo t)) ->
+  affinity_init t (BindMode m) use pm n mc = Ok ad ->
+  length (exposed t ad) = n /\ Permutation (exposed t ad) (concat (ad_masks ad)).
+Proof. exact exposed_count. Qed.
+Print Assumptions C15_exposed_count.
+
+(* add_resource / setup_pools: for every pool layout the callback asks for, the pools (default
+   first) are a partition of the exposed list: nothing lost, nothing in two pools *)
+Theorem C15_pools_partition_exposed : forall ad ex specs pools,
+  configure_pools ad ex specs = Ok pools -> NoDup ex -> Permutation (concat pools) ex.
+Proof. exact configure_pools_perm. Qed.
+Print Assumptions C15_pools_partition_exposed.
+
+(* (i) every accepted start-up in one of the four binding modes runs exactly the requested number
+   of workers, for every pool layout *)
+Theorem C15_worker_count_is_requested : forall t m use pm n mc specs s,
+  (m = Compact -> use = true \/ (n <= mc /\ wf_topo t)) ->
+  startup t (BindMode m) use pm n mc specs = Ok s -> length (st_workers s) = n.
+Proof. exact worker_count_is_requested. Qed.
+Print Assumptions C15_worker_count_is_requested.
+
+(* the compact hypothesis cannot be dropped: --pika:ignore-process-mask --pika:cores=1 --pika:threads=2
+   --pika:bind=compact on one socket with two 1-PU cores sweeps core 0 twice, both masks are {0}, the
+   count check passes and ONE worker starts.  Reproduced on the real code (HWLOC_SYNTHETIC
+   "package:1 core:2 pu:1": OUT BIND ok n=1 exposed=0); outside the property's quantifier (explicit
+   --pika:cores below the thread count). *)
+Example C15_worker_count_compact_unguarded_refuted :
+  exists t pm n mc s, startup t (BindMode Compact) false pm n mc [] = Ok s /\ length (st_workers s) <> n.
+Proof. exists [[1; 1]], (fun _ => true), 2, 1. vm_compute. eexists. split; [reflexivity|discriminate]. Qed.
+
+(* bind=none, what the code really does: min(n, #PUs of the machine) workers, none of them bound,
+   each in exactly one pool, reporting the PU numbers 0 .. min(n, #PUs)-1 (each once).
+   check_num_threads is never reached in this mode. *)
+Theorem C15_none_startup_sound : forall t use pm n mc specs s,
+  startup t BindNone use pm n mc specs = Ok s ->
+  length (st_workers s) = Nat.min n (total_pus t) /\
+  (forall i w, nth_error (st_workers s) i = Some w ->
+     w_mask w = [] /\ exists j, owners (st_pools s) 0 0 i = [j]) /\
+  Permutation (map w_pu (st_workers s)) (seq 0 (Nat.min n (total_pus t))).
+Proof. exact startup_none_sound. Qed.
+Print Assumptions C15_none_startup_sound.
+
+Theorem C15_worker_count_is_requested_none : forall t use pm n mc specs s,
+  n <= total_pus t ->
+  startup t BindNone use pm n mc specs = Ok s -> length (st_workers s) = n.
+Proof. exact none_worker_count. Qed.
+Print Assumptions C15_worker_count_is_requested_none.
+
+(* finding C15:none:threads_gt_pus_truncated: without the guard the statement is false *)
+Example C15_worker_count_none_unguarded_refuted :
+  exists t use pm n mc s, startup t BindNone use pm n mc [] = Ok s /\ length (st_workers s) <> n.
+Proof. exists [[2; 2]; [2; 2]], true, (fun i => i <? 8), 9, 9. vm_compute. eexists. split; [reflexivity|discriminate]. Qed.
+
+(* (iii) end to end, one theorem about [startup]: decode soundness + exposed list + pool bookkeeping +
+   reconfigure_affinities + pool thread ranges.  For every accepted start-up in a binding mode:
+   exactly n workers; worker i is bound to exactly the PU it reports, that PU exists, lies inside the
+   process mask when one is in use, and is one of the PUs of the one and only pool whose thread range
+   contains i; two different workers never share a PU; the workers' PUs are the pools' PUs in order,
+   and as a set exactly the PUs the decoder chose. *)
+Theorem C15_startup_sound : forall t m use pm n mc specs s,
+  (m = Compact -> use = true \/ (n <= mc /\ wf_topo t)) ->
+  startup t (BindMode m) use pm n mc specs = Ok s ->
+  length (st_workers s) = n /\
+  (forall i w, nth_error (st_workers s) i = Some w ->
+     w_mask w = [w_pu w] /\ w_pu w < total_pus t /\ (use = true -> pm (w_pu w) = true) /\
+     exists j pool, owners (st_pools s) 0 0 i = [j] /\ nth_error (st_pools s) j = Some pool /\ In (w_pu w) pool) /\
+  (forall i j wi wj, nth_error (st_workers s) i = Some wi -> nth_error (st_workers s) j = Some wj ->
+     i <> j -> w_pu wi <> w_pu wj) /\
+  map w_pu (st_workers s) = concat (st_pools s) /\
+  Permutation (map w_pu (st_workers s)) (concat (ad_masks (st_ad s))).
+Proof. exact startup_sound. Qed.
+Print Assumptions C15_startup_sound.
+
+(* (ii) thread-count keywords.  --pika:threads=all: the number of PUs of the machine when the mask is
+   ignored, otherwise the number of PUs inside the mask *)
+Theorem C15_threads_all : forall t pm,
+  default_threads t false pm = total_pus t /\
+  exists ps, NoDup ps /\ (forall p, In p ps <-> p < total_pus t /\ pm p = true) /\
+             default_threads t true pm = length ps.
+Proof. exact default_threads_spec. Qed.
+Print Assumptions C15_threads_all.
+
+(* ... and it is the largest thread count the oversubscription check lets through *)
+Theorem C15_threads_all_is_max_accepted : forall t use pm n,
+  check_num_threads t use pm n = None <-> n <= default_threads t use pm.
+Proof. exact default_threads_max. Qed.
+Print Assumptions C15_threads_all_is_max_accepted.
+
+(* --pika:threads=cores: the number of cores of the machine when the mask is ignored, otherwise the
+   number of cores that have at least one PU inside the mask (core c owns the logical PUs
+   prefix t c .. prefix t c + core_pus t c - 1) *)
+Theorem C15_threads_cores : forall t pm,
+  default_cores t false pm = ncores t /\
+  exists cs, NoDup cs /\
+    (forall c, In c cs <-> c < ncores t /\ exists q, prefix t c <= q < prefix t c + core_pus t c /\ pm q = true) /\
+    default_cores t true pm = length cs.
+Proof. exact default_cores_spec. Qed.
+Print Assumptions C15_threads_cores.
+
+(* cores <= all, so neither keyword is ever rejected as oversubscription (wf_topo: no core without
+   PUs, needed only when the mask is ignored) *)
+Theorem C15_threads_keywords_accepted : forall t use pm,
+  (use = true \/ wf_topo t) ->
+  check_num_threads t use pm (default_threads t use pm) = None /\
+  check_num_threads t use pm (default_cores t use pm) = None.
+Proof. exact keywords_pass_check. Qed.
+Print Assumptions C15_threads_keywords_accepted.
+
 (* ---- non-vacuity and recorded observations (vm_compute over concrete inputs) ---- *)
 Definition full (k : nat) : nat -> bool := fun i => i <? k.
 Definition pus_of (r : result started) : list (list nat * nat) :=
@@ -102,3 +218,28 @@ Example C15_threads_keywords :
   default_threads t true pm = 5 /\ default_cores t true pm = 3 /\
   default_threads t false pm = 8 /\ default_cores t false pm = 4.
 Proof. vm_compute. repeat split. Qed.
+
+(* hypotheses of the start-up theorems are satisfiable: irregular machine, asymmetric mask (PU 1
+   excluded), a user pool, every mode; and the compact case without mask (n <= max_cores, wf_topo) *)
+Example C15_startup_hypotheses_satisfiable :
+  let t := [[1; 1]; [2; 2]] in let pm := fun i => negb (i =? 1) in
+  (forall m, exists s, startup t (BindMode m) true pm 4 4 [[1]] = Ok s /\ length (st_workers s) = 4 /\
+                       length (st_pools s) = 2) /\
+  (exists s, startup t (BindMode Compact) false pm 5 5 [] = Ok s /\ map w_pu (st_workers s) = [0; 1; 2; 3; 4]) /\
+  wf_topo t /\
+  (exists s, startup t BindNone true pm 3 3 [[0]] = Ok s /\ st_pools s = [[1; 2]; [0]]) /\
+  (exists ad, affinity_init t (BindMode Scatter) true pm 4 4 = Ok ad /\ exposed t ad = [0; 2; 3; 4]).
+Proof.
+  cbv zeta. split; [|split; [|split; [|split]]].
+  - intros m; destruct m; vm_compute; eexists; repeat split.
+  - vm_compute. eexists. split; reflexivity.
+  - repeat constructor.
+  - vm_compute. eexists. split; reflexivity.
+  - vm_compute. eexists. split; reflexivity.
+Qed.
+
+(* pool bookkeeping: hypotheses satisfiable (two user pools out of five exposed PUs) *)
+Example C15_pools_partition_example :
+  configure_pools {| ad_masks := []; ad_pu_nums := []; ad_noaff := []; ad_n := 0 |} [0; 2; 3; 4; 5] [[1; 3]; [0]]
+  = Ok [[3; 5]; [2; 4]; [0]].
+Proof. vm_compute. reflexivity. Qed.
